@@ -1,18 +1,24 @@
 (* C10 — exported theorems only: each is closed by [exact] and followed by Print Assumptions. *)
 From Coq Require Import List ZArith Bool.
 From Verif Require Import Gen.Gen_consts C10.Model C10.Spec
-  C10.Proofs_Pick C10.Proofs_Adjust C10.Proofs_Budget C10.Proofs.
+  C10.Proofs_Pick C10.Proofs_Adjust C10.Proofs_Budget C10.Proofs_Float C10.Proofs.
 Import ListNotations.
 Open Scope Z_scope.
 
 (* ======================================================================== budget *)
 
+(* The float64 round trip of the node reservation, int64((float64(m)/1000)*1000), loses at most
+   one milli-CPU, for every reservation below 2^50 milli-CPU (proved for the bit-exact emulation
+   [rt_milli] of the two IEEE-754 roundings). *)
+Theorem c10_float_round_trip : forall m, 0 <= m < 2 ^ 50 -> m - 1 <= rt_milli m <= m.
+Proof. exact rt_milli_bounds. Qed.
+Print Assumptions c10_float_round_trip.
+
 (* The budget is capacity * threshold / 100 minus non-BE pods, non-BE host applications and
-   max(measured system use, node reservation), floored by capacity * min / 100.  Hypothesis: the
-   float64 round trip milli -> cores -> milli of the reservation loses at most one milli-CPU
-   (decided per case by [rt_ok]); where it loses one, the reservation counts one milli less. *)
-Theorem c10_budget_formula : forall i, rt_ok i = true -> budget_holds i (budget i).
-Proof. exact budget_formula. Qed.
+   max(measured system use, node reservation), floored by capacity * min / 100; where the float64
+   round trip of the reservation is lossy the reservation counts one milli-CPU less. *)
+Theorem c10_budget_formula : forall i, node_reserved i < 2 ^ 50 -> budget_holds i (budget i).
+Proof. exact budget_formula_any. Qed.
 Print Assumptions c10_budget_formula.
 
 Theorem c10_budget_formula_exact : forall i, rt_exact i = true -> budget i = budget_spec i.
@@ -20,15 +26,14 @@ Proof. exact budget_formula_exact. Qed.
 Print Assumptions c10_budget_formula_exact.
 
 (* the system term is at least the node reservation (minus the round-trip loss) *)
-Theorem c10_budget_system_floor : forall i, rt_ok i = true -> node_reserved i - 1 <= sys_milli i.
-Proof. exact sys_at_least_reserved. Qed.
+Theorem c10_budget_system_floor : forall i, node_reserved i < 2 ^ 50 -> node_reserved i - 1 <= sys_milli i.
+Proof. exact sys_at_least_reserved_any. Qed.
 Print Assumptions c10_budget_system_floor.
 
 (* The budget does not grow when any pod or host application uses more and the rest of the node
    does not use less (same node, same configuration). *)
-Theorem c10_budget_antitone : forall i i',
-  rt_milli (node_reserved i) <= node_reserved i -> grows i i' -> budget i' <= budget i.
-Proof. exact budget_antitone. Qed.
+Theorem c10_budget_antitone : forall i i', node_reserved i < 2 ^ 50 -> grows i i' -> budget i' <= budget i.
+Proof. exact budget_antitone_any. Qed.
 Print Assumptions c10_budget_antitone.
 
 (* ... and it is antitone in each of the three consumption figures it subtracts *)
@@ -44,7 +49,16 @@ Theorem c10_budget_perturb_grows : forall kind idx d i, 1 <= kind <= 3 -> 0 <= d
 Proof. exact perturb_grows. Qed.
 Print Assumptions c10_budget_perturb_grows.
 
-(* without the round-trip hypothesis the exact formula is false of the faithful model *)
+(* a non-BE pod uses more while the node total stays (the inferred system part shrinks): the
+   budget does not grow by more than the one milli-CPU the separate truncations can cost *)
+Theorem c10_budget_antitone_pod_only : forall idx d i, node_reserved i < 2 ^ 50 -> 0 <= d ->
+  Forall (fun p => 0 <= p_use p) (b_pods i) ->
+  match nth_error (b_pods i) (Z.to_nat idx) with Some p => pod_nonbe p = true | None => True end ->
+  budget (perturb 4 idx d i) <= budget i + 1.
+Proof. exact budget_slack_any. Qed.
+Print Assumptions c10_budget_antitone_pod_only.
+
+(* the exact formula (no tolerance) is false of the faithful model: reservation 1001 counts as 1000 *)
 Theorem c10_budget_exact_refuted : exists i, budget i = budget_spec i + 1.
 Proof. exact budget_exact_refuted. Qed.
 Print Assumptions c10_budget_exact_refuted.
@@ -54,9 +68,10 @@ Proof. exact budget_holdsb_spec. Qed.
 Print Assumptions c10_budget_decided.
 
 (* the decision procedure the check runs on the implementation, run on the model *)
-Theorem c10_budget_model : forall k idx d i, rt_ok i = true -> k <> 4 ->
+Theorem c10_budget_model : forall k idx d i, node_reserved i < 2 ^ 50 ->
+  Forall (fun p => 0 <= p_use p) (b_pods i) ->
   budget_code k idx d i [budget i; budget (perturb k idx d i)] = 0.
-Proof. exact budget_code_model. Qed.
+Proof. exact budget_code_model_any. Qed.
 Print Assumptions c10_budget_model.
 
 (* ======================================================================== pick *)
